@@ -154,6 +154,8 @@ func hostClass(h string) string {
 		return "host=name:port"
 	case "10.0.0.1:443":
 		return "host=ip:port"
+	case ":9995":
+		return "host=none:port"
 	}
 	return "host=other"
 }
@@ -170,7 +172,7 @@ func cases(thorough bool) []Case {
 			for _, insecure := range []bool{false, true} {
 				for _, cc := range []string{"", "good", "foreign"} {
 					for _, req := range []bool{false, true} {
-						for _, host := range []string{"server.test", "server.test:9995", "10.0.0.1:443", "other.test"} {
+						for _, host := range []string{"server.test", "server.test:9995", "10.0.0.1:443", "other.test", ":9995"} {
 							if cr.carrier == "dns" && host != "server.test" && host != "other.test" {
 								continue // a DNS upstream URL carries a domain, no port
 							}
@@ -200,10 +202,10 @@ func cases(thorough bool) []Case {
 	// change what is required of the second
 	firsts := []Member{
 		{Carrier: "stdio", TLS: true, Cert: "good", Host: "server.test", Require: true}, // refused (no client cert) after the client prepared a skip-verify config
-		{Carrier: "stream", TLS: false, Cert: "untrusted", Host: "server.test"},          // StartTLS attempt, refused
-		{Carrier: "stream", TLS: false, Cert: "wronghost", Host: "other.test:1"},         // StartTLS attempt towards another name, refused
-		{Carrier: "ws", TLS: false, Cert: "good", Host: "other.test"},                    // StartTLS attempt, wrong host
-		{Carrier: "dns", TLS: false, Cert: "wronghost", Host: "other.test"},              // StartTLS over DNS; the cert IS valid for other.test: accepted only if it is first
+		{Carrier: "stream", TLS: false, Cert: "untrusted", Host: "server.test"},         // StartTLS attempt, refused
+		{Carrier: "stream", TLS: false, Cert: "wronghost", Host: "other.test:1"},        // StartTLS attempt towards another name, refused
+		{Carrier: "ws", TLS: false, Cert: "good", Host: "other.test"},                   // StartTLS attempt, wrong host
+		{Carrier: "dns", TLS: false, Cert: "wronghost", Host: "other.test"},             // StartTLS over DNS; the cert IS valid for other.test: accepted only if it is first
 	}
 	seconds := []Member{
 		{Carrier: "stream", TLS: true, Cert: "good", Host: "server.test"},
